@@ -151,6 +151,22 @@ CHECKS = {
              'generators, dedicated stress forms and the corpus — a search, not a proof. Trusted: Lean kernel; clingo / telingo as acceptance '
              'oracles; unit correspondence of convert_value. Known findings F12b, F15, F16, F25, F27, F28, F29 (genuine, recorded).',
         design='DESIGN.md §6 C06'),
+    'C01': dict(
+        technique='Lean 4 proof: answer-set semantics (least model of the reduct, choice bounds, constraints) of the emitted rule shapes, Fages\' '
+                  'theorem for ranked programs, and equivalence with the direct reading of resolved core sentences; rule-by-rule correspondence '
+                  'of the model compiler with the real compiler; answer-set search with clingo',
+        text='Lean theorems: for EVERY stratified specification of the core fragment (facts, choice sentences with any cardinality phrase and '
+             'conditions, definitions, prohibitions, requirements), every interpretation M, all domain sizes and bounds: M is an answer set of '
+             'the compiled program iff M is a model of the direct reading (every sentence respected, nothing holds without a reason) — '
+             'C01_main, via Fages\' theorem proved for programs with choice rules, constraints and non-recursive aggregates; the bounds printed '
+             'for each cardinality phrase mean what the phrase says (over the regenerated QUANTITY_OPERATOR callback table); corollaries for '
+             'prohibited / required / choice / closedness.',
+        note='Trusted: Lean kernel; that clingo computes the answer sets of Asp/Sem.lean `Stable` (validated per run: clingo\'s answer sets of '
+             'the real output equal the models of the direct reading enumerated on the finite domains); the generator\'s resolved form of each '
+             'surface sentence (checked per run by the rule-by-rule correspondence Core.compile vs the real output, ~240 specifications per '
+             'quick run). The theorem is about RESOLVED sentences: which positions the parser / linker connects is C07 / C08 / the correspondence. '
+             'must-without-cardinality is modelled as a definition; disjunctive heads (or) are outside the fragment. Known finding F30.',
+        design='DESIGN.md §6 C01'),
 }
 
 NOT_YET = {}
